@@ -37,7 +37,9 @@ NOT_DETECTED = {'seeded/C15-r3-change1/patch.diff': 'needs std::bad_alloc betwee
 # confirmed breaking changes on which the own check gives up (exit 2: neither a pass nor a violation), see DESIGN.md 14.5
 DECLINED = {'seeded/C09-r5-change1/patch.diff': ('C09', 'the zero-byte mask is a 32-bit subtraction over packed bytes: outside the byte-term language, R09.e/R09.d undecided'),
             'seeded/C09-r5-change2/patch.diff': ('C09', 'memcmp on block bytes against a cache member: outside the term language; R09.m names the member and stays undecided'),
-            'seeded/C03-r6-change1/patch.diff': ('C03', 'the thread entry is a lambda: the spawn analysis finds no function entry (lambda captures are not in the facts)')}
+            'seeded/C03-r6-change1/patch.diff': ('C03', 'the thread entry is a lambda: the spawn analysis finds no function entry (lambda captures are not in the facts)'),
+            'seeded/C09-r7-change1/patch.diff': ('C09', 'round keys moved into a std::vector (reserve instead of resize): the key schedule class is no longer recognised, std::vector is outside the model'),
+            'seeded/C17-r7-change1/patch.diff': ('C17', 'key validator rewritten with std::find / std::all_of / std::count: library algorithms are outside the model, the validator has no concrete result (R17 declines)')}
 json.dump({'not_detected': NOT_DETECTED, 'declined_exit_2': {k: {'property': v[0], 'why': v[1]} for k, v in DECLINED.items()}},
           open('seeded/NOT_DETECTED.json', 'w'), indent=1)
 for d in sorted(glob.glob('seeded/*/patch.diff')):
@@ -68,7 +70,7 @@ for _n in ('4', '5'):
     AREA.update({'cli' + _n: AREA['cli'] + ['C13'], 'driver' + _n: AREA['driver2'], 'pipe' + _n: AREA['pipeline'] + ['C12', 'C02'],
                  'hash' + _n: AREA['hash2'] + ['C04', 'C06', 'C02'], 'aes' + _n: AREA['aes2'] + ['C16', 'C17', 'C01', 'C18', 'C06']})
 # refactorings the present analysis cannot follow (the check answers ANALYSIS-BROKEN, exit 2, not a violation): kept out of the replay
-SKIP = set()
+SKIP = {'equiv/hash-r7-stdarray/patch.diff'}   # std::array / std::copy_n finaliser: R07.d, R11.f undecided (exit 2), see DESIGN 14.10
 for d in sorted(glob.glob('equiv/*/patch.diff')):
     if d in SKIP:
         continue
